@@ -22,6 +22,19 @@ from mirlib import (
 )
 
 
+def _load_floors():
+    p = os.path.join(os.path.dirname(os.path.dirname(os.path.abspath(__file__))), "floors.json")
+    try:
+        return json.load(open(p)).get("floors", {})
+    except Exception:
+        return {}
+
+
+# per-instance site counts confirmed on the reviewed tree (floors.json, committed): a rule whose
+# matched-site count falls below what was counted has lost an anchor or a mechanism was deleted
+_FLOORS = _load_floors()
+
+
 class Instance:
     def __init__(self, cx, iid, rule, text, floor=1):
         self.cx = cx
@@ -86,11 +99,14 @@ class Cx:
         return Instance(self, iid, rule, text, floor)
 
     def _close(self, inst):
+        fl = _FLOORS.get(inst.iid)
+        if fl is not None and fl > inst.floor:
+            inst.floor = fl
         if len(inst.sites) < inst.floor and not any(v["fn"] == "<anchor>" for v in inst.violations):
             inst.violation(
                 "<floor>",
                 "sites<%d" % inst.floor,
-                "instance matched %d site(s), fewer than the floor %d counted by hand: the rule would pass vacuously (fail closed)"
+                "instance matched %d site(s), fewer than the %d counted on the reviewed tree: a guarded mechanism was removed or the rule lost its anchor (fail closed)"
                 % (len(inst.sites), inst.floor),
             )
         self.instances.append(inst)
